@@ -39,7 +39,10 @@ def gen_forms():
     facts["flush_at_ignws"] = _flushes_before(body("ignorableWhitespace"), r"createTextIWSNode\s*\(", "ignorableWhitespace: createTextIWSNode(")
     # characters(): top level = white space only; accumulate or create a node per event
     cb = re.sub(r"\s+", "", body("characters"))
-    need(re.escape("if(m_currentElement==0){if(isXMLWhitespace(chars)==false){throwXalanDOMException(XalanDOMException::HIERARCHY_REQUEST_ERR);}}"
+    # the white-space test either scans to a NUL (as found) or uses the length of the event (repair 6782ca4); both shapes
+    # are recognised, anything else fails closed.  The model (FormsDefs.build_sax) is fed exact chunks, for which the two agree.
+    need(re.escape("if(m_currentElement==0){if(isXMLWhitespace(chars") + r"(?:,0,length)?" +
+         re.escape(")==false){throwXalanDOMException(XalanDOMException::HIERARCHY_REQUEST_ERR);}}"
                    "elseif(m_accumulateText==true){m_textBuffer.append(chars,length);}else{doCharacters(chars,length);}"),
          cb, "characters(): top-level white-space test / m_textBuffer.append / doCharacters structure")
     pb = re.sub(r"\s+", "", body("processAccumulatedText"))
